@@ -164,11 +164,15 @@ Proof.
 Qed.
 
 (* ---------------------------------------------------------------- unlock_ *)
+Definition punlock_kf (k : bool) (p : path) (n : node) : node :=
+  if is_prefix p (n_path n) then with_lock n (match n_kind n with NTD => Some false | NLAZY => None end) (n_parents n) (k && n_memmap n) [] else n.
 Definition punlock_f (p : path) (n : node) : node :=
   if is_prefix p (n_path n) then with_lock n (match n_kind n with NTD => Some false | NLAZY => None end) (n_parents n) false [] else n.
 
 Lemma punlock_f_keeps : forall p n, n_path (punlock_f p n) = n_path n /\ info (punlock_f p n) = info n.
 Proof. intros. unfold punlock_f. destruct (is_prefix p (n_path n)); split; reflexivity. Qed.
+Lemma punlock_kf_keeps : forall k p n, n_path (punlock_kf k p n) = n_path n /\ info (punlock_kf k p n) = info n.
+Proof. intros. unfold punlock_kf. destruct (is_prefix p (n_path n)); split; reflexivity. Qed.
 
 Definition cparents_f (p : path) (n : node) : node :=
   if is_prefix p (n_path n) && nkind_eqb (n_kind n) NTD then with_lock n (n_flag n) [] (n_memmap n) (n_cache n) else n.
@@ -210,7 +214,7 @@ Proof.
         apply existsb_exists. exists (n_path n). split.
         + unfold punlock_f. rewrite Pn0, is_prefix_refl. exact Reg.
         + assert (FN : find_node (propagate_unlock s p) (n_path n) = Some (punlock_f p n)).
-          { unfold propagate_unlock. change (upd_nodes s (fun n1 => if is_prefix p (n_path n1) then with_lock n1 (match n_kind n1 with NTD => Some false | NLAZY => None end) (n_parents n1) false [] else n1)) with (upd_nodes s (punlock_f p)).
+          { change (propagate_unlock s p) with (upd_nodes s (punlock_f p)).
             rewrite find_node_upd; [|intros; apply punlock_f_keeps]. rewrite (find_node_of_in s n (g_nodup U s G) Hn). reflexivity. }
           change (match find_node (propagate_unlock s p) (n_path n) with Some a => flag_locked a | None => false end = true).
           rewrite FN. unfold punlock_f. rewrite Pn. exact L. }
@@ -240,36 +244,36 @@ Proof.
 Qed.
 
 (* unlock_ that was refused: the subtree is locked again; its caches were erased on the way *)
-Lemma unlock_refused_good : forall U s p,
-  Good U s -> Good U (propagate_lock (propagate_unlock s p) p).
+Lemma unlock_refused_good : forall k U s p,
+  Good U s -> Good U (propagate_lock (propagate_unlock_k k s p) p).
 Proof.
-  intros U s p G.
-  set (s1 := propagate_unlock s p).
-  set (f := fun n => plock_f s1 p (punlock_f p n)).
+  intros k U s p G.
+  set (s1 := propagate_unlock_k k s p).
+  set (f := fun n => plock_f s1 p (punlock_kf k p n)).
   assert (E : propagate_lock s1 p = upd_nodes s f).
-  { rewrite propagate_lock_eq. unfold s1, propagate_unlock, upd_nodes. cbn. f_equal. rewrite map_map. reflexivity. }
+  { rewrite propagate_lock_eq. unfold s1, propagate_unlock_k, upd_nodes. cbn. f_equal. rewrite map_map. reflexivity. }
   rewrite E.
   assert (K : forall n, n_path (f n) = n_path n /\ info (f n) = info n).
-  { intros n. unfold f. destruct (plock_f_keeps s1 p (punlock_f p n)) as [A B], (punlock_f_keeps p n) as [C D]. split; congruence. }
+  { intros n. unfold f. destruct (plock_f_keeps s1 p (punlock_kf k p n)) as [A B], (punlock_kf_keeps k p n) as [C D]. split; congruence. }
   assert (Fl : forall n, flag_locked (f n) = (is_prefix p (n_path n) || flag_locked n)).
-  { intros n. unfold f. rewrite plock_f_flag. destruct (punlock_f_keeps p n) as [A _]. rewrite A.
-    unfold punlock_f. destruct (is_prefix p (n_path n)); reflexivity. }
+  { intros n. unfold f. rewrite plock_f_flag. destruct (punlock_kf_keeps k p n) as [A _]. rewrite A.
+    unfold punlock_kf. destruct (is_prefix p (n_path n)); reflexivity. }
   assert (Ca : forall n, n_cache (f n) = if is_prefix p (n_path n) then [] else n_cache n).
-  { intros n. unfold f. rewrite plock_f_cache. unfold punlock_f. destruct (is_prefix p (n_path n)); reflexivity. }
+  { intros n. unfold f. rewrite plock_f_cache. unfold punlock_kf. destruct (is_prefix p (n_path n)); reflexivity. }
   assert (Pa : forall n, n_parents (f n) = if is_prefix p (n_path n)
                                            then (if path_eqb (n_path n) p then n_parents n else add_parents (n_parents n) (chain s1 p (n_path n)))
                                            else n_parents n).
-  { intros n. unfold f, plock_f. destruct (punlock_f_keeps p n) as [A _]. rewrite A.
-    unfold punlock_f. destruct (is_prefix p (n_path n)); reflexivity. }
+  { intros n. unfold f, plock_f. destruct (punlock_kf_keeps k p n) as [A _]. rewrite A.
+    unfold punlock_kf. destruct (is_prefix p (n_path n)); reflexivity. }
   assert (Ch : forall a x, In a (nodes s) -> is_prefix p (n_path a) = true -> proper_prefix (n_path a) x = true -> In (n_path a) (chain s1 p x)).
-  { intros a x Ha H1 H2. replace (n_path a) with (n_path (punlock_f p a)) by apply punlock_f_keeps.
-    apply in_chain; [|now rewrite (proj1 (punlock_f_keeps p a))|now rewrite (proj1 (punlock_f_keeps p a))].
-    unfold s1, propagate_unlock, upd_nodes. cbn. apply in_map_iff. exists a. split; [reflexivity|assumption]. }
+  { intros a x Ha H1 H2. replace (n_path a) with (n_path (punlock_kf k p a)) by apply punlock_kf_keeps.
+    apply in_chain; [|now rewrite (proj1 (punlock_kf_keeps k p a))|now rewrite (proj1 (punlock_kf_keeps k p a))].
+    unfold s1, propagate_unlock_k, upd_nodes. cbn. apply in_map_iff. exists a. split; [reflexivity|assumption]. }
   constructor.
   - apply nodup_upd; [intros; apply K|apply (g_nodup U s G)].
   - intros n' Hn'. apply in_upd in Hn'. destruct Hn' as [n [Hn ->]]. destruct (g_td U s G n Hn) as [T Fn]. split.
     + destruct (K n) as [_ I]. unfold info in I. inversion I. congruence.
-    + unfold f, plock_f, punlock_f. destruct (is_prefix p (n_path n)) eqn:P; cbn; rewrite ?P; cbn; [discriminate|assumption].
+    + unfold f, plock_f, punlock_kf. destruct (is_prefix p (n_path n)) eqn:P; cbn; rewrite ?P; cbn; [discriminate|assumption].
   - intros n' x' Hn' Hx' L P. apply in_upd in Hn', Hx'. destruct Hn' as [n [Hn ->]], Hx' as [x [Hx ->]].
     rewrite Fl in *. destruct (K n) as [Kn _], (K x) as [Kx _]. rewrite Kn, Kx in P.
     apply orb_true_iff in L. apply orb_true_iff. destruct L as [L|L].
@@ -297,9 +301,9 @@ Proof.
     eapply entry_ok_view; [apply K| |apply (g_inv U s G n e Hn He)]. apply view_upd. apply K.
 Qed.
 
-Lemma unlock_good : forall U s p, Good U s -> Good U (fst (unlock_ s p)).
+Lemma unlock_good : forall fx U s p, Good U s -> Good U (fst (unlock_ fx s p)).
 Proof.
-  intros U s p G. unfold unlock_. destruct (find_node s p) as [n0|] eqn:F; [|exact G].
+  intros fx U s p G. unfold unlock_. destruct (find_node s p) as [n0|] eqn:F; [|exact G].
   destruct (unlock_blocked (propagate_unlock s p) p) eqn:B; cbn.
   - now apply unlock_refused_good.
   - now apply (unlock_done_good U s p n0).
